@@ -69,6 +69,8 @@ def install_walker_env(ctx, eng, nsources=1):
     S(r"^(std::path::)?Path::to_path_buf$", lambda e, st, c, a, d: Outcome(P(pexpr(e, st, a[0]))))
     front(r"^<(std::path::)?PathBuf as Clone>::clone$", lambda e, st, c, a, d: Outcome(P(pexpr(e, st, a[0]))))
     S(r"^(std::path::)?PathBuf::new$", lambda e, st, c, a, d: Outcome(P(("empty",))))
+    S(r"^(std::path::)?Path::as_os_str$", lambda e, st, c, a, d: Outcome(a[0]))
+    S(r"^(std::ffi::)?OsStr::is_empty$", lambda e, st, c, a, d: Outcome(BoolV(pexpr(e, st, a[0]) == ("empty",))))
 
     def s_strip(eng, st, callee, args, dty):
         a, b = pexpr(eng, st, args[0]), pexpr(eng, st, args[1])
